@@ -1306,6 +1306,9 @@ class BaseLoss(object):
         else:
             callback = None
 
+        # cost of the initial guess, see below
+        cost0 = self.cost(x)
+
         res = minimize(fun=self.cost,
                        jac=self.sensitivity,
                        x0=x,
@@ -1313,6 +1316,13 @@ class BaseLoss(object):
                        constraints=con_list,
                        method=method,
                        callback=callback)
+
+        # the optimiser can terminate abnormally, e.g. when the cost is not
+        # finite at a trial point of the line search, and then hands back a
+        # point that is worse than the initial guess: keep the guess instead
+        if np.isfinite(cost0) and not res['fun'] <= cost0:
+            res['x'] = np.array(x, dtype=float)
+            res['fun'] = cost0
 
         if full_output:
             return res['x'], res
